@@ -6,6 +6,7 @@ import (
 	"bufio"
 	"bytes"
 	"encoding/json"
+	"errors"
 	"fmt"
 	"io"
 	"net"
@@ -94,6 +95,39 @@ type ccase struct {
 	SlowClose bool   `json:"slow_close,omitempty"` // the proxy-side connections block inside Close() until the harness lets them
 	Hook      string `json:"hook,omitempty"`       // hook family: placement
 	Transport string `json:"transport,omitempty"`
+	Attrs     []attr `json:"attrs,omitempty"` // gates: shape of the exchange on each connection
+}
+
+// attr is the shape of the exchange a connection carries.
+type attr struct {
+	Pipe   bool   `json:"pipelined,omitempty"` // a second GET is written together with the request
+	Body   string `json:"body,omitempty"`      // "" (GET) | large (POST, body streamed at once) | slow (POST + Expect, rest of the body sent late)
+	RTFail bool   `json:"rt_fail,omitempty"`   // the round trip fails: the proxy answers 502
+	Stall  bool   `json:"stall,omitempty"`     // point "writing": the origin body stalls half way (instead of a client that does not read)
+	Small  bool   `json:"small,omitempty"`     // small response body (fits the proxy's write buffer)
+}
+
+func (a attr) String() string {
+	var f []string
+	if a.Pipe {
+		f = append(f, "pipelined")
+	}
+	if a.Body != "" {
+		f = append(f, "post-"+a.Body)
+	}
+	if a.RTFail {
+		f = append(f, "rtfail")
+	}
+	if a.Stall {
+		f = append(f, "stall")
+	}
+	if a.Small {
+		f = append(f, "small")
+	}
+	if len(f) == 0 {
+		return "get"
+	}
+	return strings.Join(f, "+")
 }
 
 type event struct {
@@ -122,6 +156,9 @@ type world struct {
 	gates    map[[2]int]chan struct{} // (conn, point) -> gate
 	inflight int64
 	bodyLen  map[int]int
+	reqBody  map[int]int  // request body length per exchange id
+	rtFail   map[int]bool // the round trip of this exchange fails
+	stall    map[int]bool // the response body of this exchange stalls half way on gate (id, ptWriting)
 
 	closeReturned   int32
 	closeRetSeq     int64
@@ -139,6 +176,7 @@ type world struct {
 	closeGate       chan struct{} // slow-close mode: conn.Close() of accepted connections waits for this
 	closeGateOnce   sync.Once
 	bySv            map[*vh.PipeConn]*cconn
+	bodyErr         map[int]string // what went wrong with an exchange's request body at the origin
 }
 
 // slowConn is an accepted connection whose Close reports its entry and then
@@ -225,17 +263,82 @@ func (w *world) RoundTrip(req *http.Request) (*http.Response, error) {
 	}
 	w.mu.Lock()
 	n := w.bodyLen[id]
+	want := w.reqBody[id]
+	fail := w.rtFail[id]
+	stall := w.stall[id]
 	w.mu.Unlock()
+	// like a transport: send the request body upstream, i.e. read it from the client
+	if req.Body != nil && req.Body != http.NoBody {
+		got, err := io.ReadAll(countingReader{req.Body, new(int64), &w.bytesActivity})
+		if err != nil {
+			w.ev("rt-body-error", id, false)
+			w.mu.Lock()
+			w.bodyErr[id] = fmt.Sprintf("read %d of %d request body bytes: %v", len(got), want, err)
+			w.mu.Unlock()
+			return nil, fmt.Errorf("harness origin: request body: %w", err)
+		}
+		if !bytes.Equal(got, vh.Stamp(uint32(0x080000|id&0xffff), want)) {
+			w.ev("rt-body-mismatch", id, false)
+			w.mu.Lock()
+			w.bodyErr[id] = fmt.Sprintf("origin received %d request body bytes, want %d stamped bytes", len(got), want)
+			w.mu.Unlock()
+		}
+	} else if want > 0 {
+		w.mu.Lock()
+		w.bodyErr[id] = "request arrived at the origin without its body"
+		w.mu.Unlock()
+	}
+	if fail {
+		w.ev("rt-exit", id, true)
+		return nil, errors.New("harness origin: upstream unavailable")
+	}
+	payload := vh.Stamp(uint32(0x070000|id&0xffff), n)
+	var body io.ReadCloser = io.NopCloser(bytes.NewReader(payload))
+	if stall {
+		body = &stallBody{w: w, id: id, data: payload, cut: n / 2}
+	}
 	res := &http.Response{
 		StatusCode: 200, Status: "200 OK", Proto: "HTTP/1.1", ProtoMajor: 1, ProtoMinor: 1,
 		Header:        http.Header{"X-Conn": []string{strconv.Itoa(id)}, "Content-Type": []string{"application/octet-stream"}},
-		Body:          io.NopCloser(bytes.NewReader(vh.Stamp(uint32(0x070000|id&0xffff), n))),
+		Body:          body,
 		ContentLength: int64(n),
 		Request:       req,
 	}
 	w.ev("rt-exit", id, false)
 	return res, nil
 }
+
+// stallBody delivers data[:cut], then waits for gate (id, ptWriting), then
+// delivers the rest: the handler is inside res.Write while it waits.
+type stallBody struct {
+	w     *world
+	id    int
+	data  []byte
+	cut   int
+	off   int
+	stuck bool
+}
+
+func (b *stallBody) Read(p []byte) (int, error) {
+	if b.off >= len(b.data) {
+		return 0, io.EOF
+	}
+	end := len(b.data)
+	if b.off < b.cut {
+		end = b.cut
+	} else if !b.stuck {
+		b.stuck = true
+		b.w.ev("body-stall", b.id, false)
+		if g := b.w.gate(b.id, ptWriting); g != nil {
+			<-g
+		}
+	}
+	n := copy(p, b.data[b.off:end])
+	b.off += n
+	return n, nil
+}
+
+func (b *stallBody) Close() error { return nil }
 
 // ModifyResponse implements martian.ResponseModifier.
 func (w *world) ModifyResponse(res *http.Response) error {
@@ -281,6 +384,9 @@ type cconn struct {
 	bodyBad      int32
 	complete     int32
 	extra        int64
+	more         []*respObs // responses after the first (guarded by world.mu)
+	attr         attr
+	rest         []byte // slow body: the part sent at release time
 	raw          int64
 	term         int32 // 1 EOF, 2 error
 	rerr         atomic.Value
@@ -301,8 +407,23 @@ func (cr countingReader) Read(p []byte) (int, error) {
 	return n, err
 }
 
-// read consumes one response (head, body by Content-Length or until EOF) and
-// then everything up to end-of-stream.
+// respObs is a response after the first one on a connection (pipelining).
+type respObs struct {
+	Line     string
+	ID       int
+	Body     int
+	Want     int
+	Bad      bool
+	Complete bool
+	Close    bool
+}
+
+// read consumes the responses on the connection up to end-of-stream. What it
+// saw of the first one is kept in the cconn's own fields, later ones (a
+// pipelined second exchange) in more. The expected body of a response is the
+// stamp of the exchange named by its X-Conn header (the origin sets it), or of
+// the next exchange expected on this connection if the header is missing (a
+// response made by the proxy).
 func (c *cconn) read(expectBody int) {
 	if !atomic.CompareAndSwapInt32(&c.reading, 0, 1) {
 		return
@@ -316,55 +437,142 @@ func (c *cconn) read(expectBody int) {
 			atomic.StoreInt32(&c.term, 2)
 		}
 	}
-	h, err := tunx.ReadHead(br)
-	if err != nil {
-		if h.Raw > 0 && err == io.EOF {
-			err = io.ErrUnexpectedEOF
-		}
-		fail(err)
-		return
-	}
-	c.head.Store(h)
-	atomic.StoreInt32(&c.headSeen, 1)
-	want := -1
-	if v := h.Get("Content-Length"); len(v) == 1 {
-		if n, err := strconv.Atoi(v[0]); err == nil {
-			want = n
-		}
-	}
-	exp := vh.Stamp(uint32(0x070000|c.id&0xffff), expectBody)
 	buf := make([]byte, 32768)
-	for want < 0 || int(atomic.LoadInt64(&c.body)) < want {
-		k := len(buf)
-		if want >= 0 && want-int(c.body) < k {
-			k = want - int(c.body)
-		}
-		n, err := br.Read(buf[:k])
-		if n > 0 {
-			off := int(atomic.LoadInt64(&c.body))
-			if off+n > len(exp) || !bytes.Equal(buf[:n], exp[off:off+n]) {
-				atomic.StoreInt32(&c.bodyBad, 1)
-			}
-			atomic.AddInt64(&c.body, int64(n))
-		}
+	for k := 0; ; k++ {
+		h, err := tunx.ReadHead(br)
 		if err != nil {
-			if want < 0 && err == io.EOF && int(c.body) == expectBody {
+			if h.Raw > 0 {
+				atomic.AddInt64(&c.extra, int64(h.Raw)) // a torn head behind the last response
+				if err == io.EOF {
+					err = io.ErrUnexpectedEOF
+				}
+			}
+			fail(err)
+			return
+		}
+		id := c.id
+		if k > 0 {
+			id = 300 + c.id
+		}
+		if v := h.Get("X-Conn"); len(v) == 1 {
+			if n, err := strconv.Atoi(v[0]); err == nil {
+				id = n
+			}
+		}
+		c.w.mu.Lock()
+		expN := c.w.bodyLen[id]
+		if c.w.rtFail[id] {
+			expN = 0
+		}
+		c.w.mu.Unlock()
+		var ro *respObs
+		if k == 0 {
+			c.head.Store(h)
+			atomic.StoreInt32(&c.headSeen, 1)
+		} else {
+			ro = &respObs{Line: h.Line, ID: id, Want: expN, Close: h.HasToken("Connection", "close")}
+			c.w.mu.Lock()
+			c.more = append(c.more, ro)
+			c.w.mu.Unlock()
+		}
+		want := -1
+		if v := h.Get("Content-Length"); len(v) == 1 {
+			if n, err := strconv.Atoi(v[0]); err == nil {
+				want = n
+			}
+		}
+		exp := vh.Stamp(uint32(0x070000|id&0xffff), expN)
+		got := 0
+		bad := false
+		for want < 0 || got < want {
+			m := len(buf)
+			if want >= 0 && want-got < m {
+				m = want - got
+			}
+			n, err := br.Read(buf[:m])
+			if n > 0 {
+				if got+n > len(exp) || !bytes.Equal(buf[:n], exp[got:got+n]) {
+					bad = true
+				}
+				got += n
+				if k == 0 {
+					atomic.StoreInt64(&c.body, int64(got))
+					if bad {
+						atomic.StoreInt32(&c.bodyBad, 1)
+					}
+				} else {
+					c.w.mu.Lock()
+					ro.Body, ro.Bad = got, bad
+					c.w.mu.Unlock()
+				}
+			}
+			if err != nil {
+				if want < 0 && err == io.EOF && got == expN {
+					if k == 0 {
+						atomic.StoreInt32(&c.complete, 1)
+					} else {
+						c.w.mu.Lock()
+						ro.Complete = true
+						c.w.mu.Unlock()
+					}
+				}
+				fail(err)
+				return
+			}
+		}
+		if got == expN {
+			if k == 0 {
 				atomic.StoreInt32(&c.complete, 1)
+			} else {
+				c.w.mu.Lock()
+				ro.Complete = true
+				c.w.mu.Unlock()
 			}
-			fail(err)
-			return
 		}
 	}
-	if int(c.body) == expectBody {
-		atomic.StoreInt32(&c.complete, 1)
+}
+
+// requestFor renders the request of exchange id with shape a: head and body.
+func (w *world) requestFor(id int, a attr) (head, body []byte) {
+	if a.Body == "" {
+		return []byte(request(id)), nil
 	}
-	for {
-		n, err := br.Read(buf)
-		atomic.AddInt64(&c.extra, int64(n))
-		if err != nil {
-			fail(err)
-			return
+	w.mu.Lock()
+	n := w.reqBody[id]
+	w.mu.Unlock()
+	h := "POST http://origin.c07.example/c" + strconv.Itoa(id) + " HTTP/1.1\r\nHost: origin.c07.example\r\nUser-Agent: verif-c07\r\nX-Conn: " + strconv.Itoa(id) +
+		"\r\nContent-Type: application/octet-stream\r\nContent-Length: " + strconv.Itoa(n) + "\r\n"
+	if a.Body == "slow" {
+		h += "Expect: 100-continue\r\n"
+	}
+	return []byte(h + "\r\n"), vh.Stamp(uint32(0x080000|id&0xffff), n)
+}
+
+// sendRequest writes the request of connection c according to its shape. A
+// "large" body is streamed by a goroutine (it does not fit the connection
+// buffer); of a "slow" body only the beginning is sent now, the rest is kept
+// for release time if holdRest is set.
+func (w *world) sendRequest(c *cconn, holdRest bool) {
+	head, body := w.requestFor(c.id, c.attr)
+	switch c.attr.Body {
+	case "large":
+		go c.conn.Write(append(head, body...))
+	case "slow":
+		k := 1 + (c.id*131+w.c.Idx*17)%1500
+		if k > len(body) {
+			k = len(body)
 		}
+		c.conn.Write(append(head, body[:k]...))
+		if holdRest {
+			c.rest = body[k:]
+		} else {
+			go c.conn.Write(body[k:])
+		}
+	default:
+		if c.attr.Pipe {
+			head = append(head, request(300+c.id)...)
+		}
+		c.conn.Write(head)
 	}
 }
 
@@ -373,7 +581,7 @@ func request(id int) string {
 }
 
 func newWorld(r *vh.Run, c ccase, budget *tunx.Budget, tcp bool) (*world, error) {
-	w := &world{r: r, c: c, budget: budget, exchs: map[int]*exch{}, gates: map[[2]int]chan struct{}{}, bodyLen: map[int]int{}, serveDone: make(chan struct{})}
+	w := &world{r: r, c: c, budget: budget, exchs: map[int]*exch{}, gates: map[[2]int]chan struct{}{}, bodyLen: map[int]int{}, reqBody: map[int]int{}, rtFail: map[int]bool{}, stall: map[int]bool{}, bodyErr: map[int]string{}, serveDone: make(chan struct{})}
 	p := martian.NewProxy()
 	p.SetTimeout(proxyTimeout)
 	p.SetRoundTripper(w)
@@ -527,35 +735,88 @@ func (w *world) startClose() {
 
 func (w *world) returned() bool { return atomic.LoadInt32(&w.closeReturned) == 1 }
 
-// checkExchange validates what the client of a served exchange received.
+// checkExchange validates what the client of connection c received for every
+// exchange on it whose request modifier was entered (the first request, and a
+// pipelined second one if the proxy got to it).
 func (w *world) checkExchange(c *cconn, cls string) {
+	w.checkOne(c, c.id, 0, cls)
 	w.mu.Lock()
-	e := w.exchs[c.id]
+	_, second := w.exchs[300+c.id]
+	nmore := len(c.more)
+	w.mu.Unlock()
+	if second {
+		w.checkOne(c, 300+c.id, 1, cls)
+	} else if nmore > 0 {
+		w.r.ViolationCase(w.c, "C07:response-corrupt:"+cls, fmt.Sprintf("connection %d received %d more responses although no further request modifier ran on it", c.id, nmore), w.state())
+	}
+	if n := atomic.LoadInt64(&c.extra); n != 0 {
+		w.r.ViolationCase(w.c, "C07:response-corrupt:"+cls, fmt.Sprintf("connection %d: %d stray bytes behind the last response", c.id, n), w.state())
+	}
+}
+
+// checkOne checks the k-th response on c against exchange id.
+func (w *world) checkOne(c *cconn, id, k int, cls string) {
+	w.mu.Lock()
+	e := w.exchs[id]
 	var closingAtRes bool
 	var resExit int64
 	if e != nil {
 		closingAtRes, resExit = e.closingAtResExit, e.resExit
 	}
-	n := w.bodyLen[c.id]
+	n := w.bodyLen[id]
+	fail := w.rtFail[id]
+	berr := w.bodyErr[id]
+	var ro *respObs
+	if k > 0 && len(c.more) >= k {
+		cp := *c.more[k-1]
+		ro = &cp
+	}
 	w.mu.Unlock()
 	if e == nil {
 		return
 	}
-	if atomic.LoadInt32(&c.complete) != 1 || atomic.LoadInt32(&c.headSeen) != 1 {
-		w.r.ViolationCase(w.c, "C07:response-incomplete:"+cls, fmt.Sprintf("exchange on connection %d had entered the request modifier but its client got head=%d body=%d/%d before the connection ended",
-			c.id, atomic.LoadInt32(&c.headSeen), atomic.LoadInt64(&c.body), n), w.state())
+	if berr != "" {
+		w.r.ViolationCase(w.c, "C07:exchange-aborted:"+cls, fmt.Sprintf("exchange %d had entered the request modifier, but its request did not reach the origin intact: %s", id, berr), w.state())
 		return
 	}
-	h := c.head.Load().(*tunx.Head)
-	if h.Status() != 200 || atomic.LoadInt32(&c.bodyBad) != 0 || atomic.LoadInt64(&c.extra) != 0 {
-		w.r.ViolationCase(w.c, "C07:response-corrupt:"+cls, fmt.Sprintf("connection %d: status line %q, body mismatch=%d, %d bytes after the response", c.id, h.Line, atomic.LoadInt32(&c.bodyBad), atomic.LoadInt64(&c.extra)), w.state())
+	wantStatus := 200
+	if fail {
+		wantStatus, n = 502, 0
 	}
-	if resExit != 0 && closingAtRes && !h.HasToken("Connection", "close") {
-		w.r.ViolationCase(w.c, "C07:not-marked-close:"+cls, fmt.Sprintf("connection %d: Closing() was true when the response modifier returned, but the response carries no Connection: close (%v)", c.id, h.Headers), w.state())
+	var line string
+	var status int
+	var complete, bad, marked bool
+	var got int64
+	var hdrs []string
+	if k == 0 {
+		if atomic.LoadInt32(&c.headSeen) == 1 {
+			h := c.head.Load().(*tunx.Head)
+			line, status, marked, hdrs = h.Line, h.Status(), h.HasToken("Connection", "close"), h.Headers
+		}
+		complete = atomic.LoadInt32(&c.complete) == 1 && atomic.LoadInt32(&c.headSeen) == 1
+		bad = atomic.LoadInt32(&c.bodyBad) != 0
+		got = atomic.LoadInt64(&c.body)
+	} else if ro != nil {
+		hh := tunx.Head{Line: ro.Line}
+		line, status, marked, complete, bad, got = ro.Line, hh.Status(), ro.Close, ro.Complete, ro.Bad, int64(ro.Body)
+	}
+	if !complete {
+		w.r.ViolationCase(w.c, "C07:response-incomplete:"+cls, fmt.Sprintf("exchange %d on connection %d had entered the request modifier but its client got status line %q and %d of %d body bytes before the connection ended",
+			id, c.id, line, got, n), w.state())
+		return
+	}
+	if status != wantStatus || bad {
+		w.r.ViolationCase(w.c, "C07:response-corrupt:"+cls, fmt.Sprintf("exchange %d on connection %d: status line %q (want %d), body mismatch=%v", id, c.id, line, wantStatus, bad), w.state())
+	}
+	if resExit != 0 && closingAtRes && !marked {
+		w.r.ViolationCase(w.c, "C07:not-marked-close:"+cls, fmt.Sprintf("exchange %d on connection %d: Closing() was true when the response modifier returned, but the %d response carries no Connection: close (%v)", id, c.id, status, hdrs), w.state())
 	}
 	w.r.Count("exchanges_checked", 1)
-	if h.HasToken("Connection", "close") {
+	if marked {
 		w.r.Count("responses_marked_close", 1)
+	}
+	if status == 502 {
+		w.r.Count("failed_round_trips_checked", 1)
 	}
 }
 
@@ -678,8 +939,8 @@ func (w *world) park1(c *cconn) bool {
 		c.conn.Write([]byte(rq[:k]))
 		return w.setup("mid-head: proxy consumed the partial head and reads on", func() bool { return c.sv.Unread() == 0 && c.sv.ReadCalls() >= 2 })
 	}
-	c.conn.Write([]byte(request(id)))
-	if c.point != ptWriting {
+	w.sendRequest(c, c.point <= ptRoundTrip)
+	if c.point != ptWriting || c.attr.Stall {
 		go c.read(w.bodyLen[id])
 	}
 	switch c.point {
@@ -690,6 +951,9 @@ func (w *world) park1(c *cconn) bool {
 	case ptResMod:
 		return w.setup("parked in response modifier", func() bool { return w.has("resmod-enter", id) })
 	case ptWriting:
+		if c.attr.Stall {
+			return w.setup("handler inside res.Write, origin body stalled", func() bool { return w.has("resmod-exit", id) && w.has("body-stall", id) })
+		}
 		return w.setup("handler blocked writing the response", func() bool {
 			return w.has("resmod-exit", id) && c.conn.(*vh.PipeConn).Unread() >= pipeCap
 		})
@@ -699,7 +963,11 @@ func (w *world) park1(c *cconn) bool {
 
 func (w *world) release(c *cconn) {
 	w.ev("release", c.id, false)
-	if c.point == ptWriting {
+	if c.rest != nil {
+		go c.conn.Write(c.rest) // the rest of a slow request body arrives only now
+		c.rest = nil
+	}
+	if c.point == ptWriting && !c.attr.Stall {
 		go c.read(w.bodyLen[c.id])
 		return
 	}
@@ -717,15 +985,35 @@ func runGates(r *vh.Run, c ccase, budget *tunx.Budget) {
 	}
 	defer w.teardown()
 	rng := r.Rng("c07-gates-body", c.Idx)
-	_ = rng
+	attrs := make([]attr, len(c.Points))
 	for i, pt := range c.Points {
+		var a attr
+		if i < len(c.Attrs) {
+			a = sanitize(c.Attrs[i], pt)
+		}
+		attrs[i] = a
 		w.bodyLen[i] = rng.Intn(40000)
-		if pt == ptWriting {
+		if a.Small {
+			w.bodyLen[i] = 50 + rng.Intn(1500)
+		}
+		if pt == ptWriting && !a.Stall {
 			w.bodyLen[i] = bigBody
 		}
 		if pt >= ptReqMod && pt <= ptResMod {
 			w.gates[[2]int{i, pt}] = make(chan struct{})
 		}
+		if pt == ptWriting && a.Stall {
+			w.gates[[2]int{i, ptWriting}] = make(chan struct{})
+			w.stall[i] = true
+		}
+		switch a.Body {
+		case "large":
+			w.reqBody[i] = 20000 + rng.Intn(180000)
+		case "slow":
+			w.reqBody[i] = 3000 + rng.Intn(20000)
+		}
+		w.rtFail[i] = a.RTFail
+		w.bodyLen[300+i] = rng.Intn(3000)
 	}
 	w.bodyLen[100], w.bodyLen[101] = 10, 10
 	for i := range c.Points {
@@ -739,6 +1027,7 @@ func runGates(r *vh.Run, c ccase, budget *tunx.Budget) {
 			r.Inconclusive("setup: dial refused", nil)
 			return
 		}
+		cc.attr = attrs[i]
 		conns = append(conns, cc)
 		if !w.park(cc) {
 			return
@@ -840,8 +1129,12 @@ func runGates(r *vh.Run, c ccase, budget *tunx.Budget) {
 
 	r.Eval(1)
 	var ps, os []string
-	for _, p := range c.Points {
-		ps = append(ps, ptName[p])
+	for i, p := range c.Points {
+		n := ptName[p]
+		if p >= ptReqMod && attrs[i] != (attr{}) {
+			n += "[" + attrs[i].String() + "]"
+		}
+		ps = append(ps, n)
 	}
 	for _, o := range c.Order {
 		os = append(os, strconv.Itoa(o))
@@ -898,10 +1191,64 @@ func permutations(xs []int) [][]int {
 	return out
 }
 
-func allGateCases(thorough bool) []ccase {
+// sanitize drops attribute combinations that make no sense at a point.
+func sanitize(a attr, pt int) attr {
+	if pt < ptReqMod {
+		return attr{}
+	}
+	if pt != ptWriting {
+		a.Stall = false
+	}
+	if pt == ptWriting {
+		a.RTFail = false // a 502 has no body to be in the middle of
+	}
+	if a.Body != "" {
+		a.Pipe = false
+	}
+	if a.RTFail {
+		a.Small = false
+	}
+	return a
+}
+
+var attrCombos = []attr{
+	{Pipe: true}, {Pipe: true, Small: true}, {Body: "large"}, {Body: "slow"}, {RTFail: true}, {Small: true},
+	{Body: "large", RTFail: true}, {Pipe: true, RTFail: true},
+}
+
+func allGateCases(r *vh.Run, thorough bool) []ccase {
 	cs := append(gateCases(1), gateCases(2)...)
 	if thorough {
 		cs = append(cs, gateCases(3)...)
+	}
+	// exchange shapes: PRNG-drawn for the tuples above ...
+	for i := range cs {
+		rng := r.Rng("c07-attrs", i)
+		cs[i].Attrs = make([]attr, len(cs[i].Points))
+		for k, pt := range cs[i].Points {
+			var a attr
+			if pt >= ptReqMod && rng.Intn(2) == 0 {
+				a = attrCombos[rng.Intn(len(attrCombos))]
+			}
+			if pt == ptWriting {
+				a.Stall = rng.Intn(2) == 0
+			}
+			cs[i].Attrs[k] = sanitize(a, pt)
+		}
+	}
+	// ... and swept systematically on one connection: every in-flight point x every shape
+	for pt := ptReqMod; pt <= ptWriting; pt++ {
+		for _, a := range attrCombos {
+			for st := 0; st < 2; st++ {
+				if st == 1 && pt != ptWriting {
+					continue
+				}
+				b := a
+				b.Stall = st == 1
+				b = sanitize(b, pt)
+				cs = append(cs, ccase{Kind: "gates", Points: []int{pt}, Order: []int{0}, Attrs: []attr{b}})
+			}
+		}
 	}
 	// slow-close variants: every tuple for 1-2 connections, every 8th for 3
 	n := len(cs)
@@ -1062,8 +1409,22 @@ func runRace(r *vh.Run, c ccase, budget *tunx.Budget) {
 			dialDelays[i] = time.Duration(rng.Intn(300)) * time.Microsecond
 		}
 	}
+	rattrs := make([]attr, n)
 	for i := 0; i < n; i++ {
 		w.bodyLen[i] = rng.Intn(20000)
+		w.bodyLen[300+i] = rng.Intn(2000)
+		var a attr
+		switch x := rng.Intn(20); {
+		case x < 4:
+			a.Body = "large"
+			w.reqBody[i] = 20000 + rng.Intn(100000)
+		case x < 7:
+			a.RTFail = true
+		case x < 11 && !tcp:
+			a.Pipe = true // not on TCP: a close with the second request unread is a reset that may destroy the first response
+		}
+		w.rtFail[i] = a.RTFail
+		rattrs[i] = a
 	}
 	var hookN int32
 	verifhook.Set(func(name string) {
@@ -1113,9 +1474,10 @@ func runRace(r *vh.Run, c ccase, budget *tunx.Budget) {
 			time.Sleep(dialDelays[i])
 		}
 		cc := w.dial(i, -1, "")
+		cc.attr = rattrs[i]
 		conns = append(conns, cc)
 		if !cc.refused {
-			cc.conn.Write([]byte(request(i)))
+			w.sendRequest(cc, false)
 			go cc.read(w.bodyLen[i])
 		}
 	}
@@ -1186,7 +1548,7 @@ func run(r *vh.Run, batch string) {
 	budget := tunx.NewBudget(1)
 	switch kind {
 	case "gates", "gatesrace":
-		cs := allGateCases(r.Thorough())
+		cs := allGateCases(r, r.Thorough())
 		for i, c := range cs {
 			if i%of != k {
 				continue
